@@ -21,6 +21,7 @@ import EPV.Lemmas.BuilderOps
 import EPV.Lemmas.XDMItems
 import EPV.Lemmas.XDMParents
 import EPV.Lemmas.BuilderAnc
+import EPV.Lemmas.BuilderReget
 import EPV.Lemmas.BuilderLoop
 namespace EPV.C02
 open EPV.Builder EPV.XDM
@@ -358,5 +359,184 @@ example :
 
 /-- `fn:root($n)` of a node of the tree is the first node of `root.iter()` -/
 theorem root_is_top (nodes : List Rec) (a : Nat) : opRoot nodes a = specRoot nodes.length a := rfl
+
+/-! ## the other walks over a built tree: `iter_lazy`, `iter_descendants`, `iter_document`
+
+`LazyState` records which elements (by position) have already built their `_namespace_nodes` /
+`_attributes`; `keep L r` = "`r` is not a namespace/attribute node, or its owner element has built it".
+`iter_document` *is* `iter` (xpath_nodes.py:1003, 1660). -/
+
+/-- `root.iter_lazy()` — the explicit-stack loop of `ElementNode.iter_lazy` (per element child for a
+document root) — terminates and yields, in the order of `root.iter()`, exactly the nodes that exist
+without building anything: every element/text/comment/PI/document node and the namespace / attribute
+nodes of exactly those elements that have already built them. -/
+theorem iter_lazy_eq_filter (i : Input) (root : PNode) (h : build i = .ok root) (L : LazyState) :
+    iterLazy L root = some (((iter root).filter (keep L)).map (·.pos)) := by
+  rw [iterLazy_eq L root (build_rootOK i root h), lazyNode_filter]; rfl
+
+/-- once every element has built its lazy nodes, `iter_lazy()` enumerates all of `iter()` -/
+theorem iter_lazy_all_built (i : Input) (root : PNode) (h : build i = .ok root) (L : LazyState)
+    (hall : ∀ r ∈ iter root, keep L r = true) :
+    iterLazy L root = some ((iter root).map (·.pos)) := by
+  rw [iter_lazy_eq_filter i root h L, List.filter_eq_self.2 hall]
+
+/-- `iter_lazy()` never repeats a node and lists nodes in document order (strictly increasing positions) -/
+theorem iter_lazy_document_order (i : Input) (root : PNode) (h : build i = .ok root) (L : LazyState)
+    (out : List Nat) (ho : iterLazy L root = some out) : out.Pairwise (· < ·) := by
+  rw [iter_lazy_eq_filter i root h L] at ho
+  injection ho with ho; subst ho
+  have hs := build_positions_strict i root h
+  exact hs.sublist (List.Sublist.map _ List.filter_sublist)
+
+/-- `root.iter_descendants()` (its own explicit-stack loop) yields exactly the nodes of `iter()` that are
+not namespace or attribute nodes, in document order. -/
+theorem iter_descendants_eq (i : Input) (root : PNode) (h : build i = .ok root) :
+    iterDescendants root = some (((iter root).filter eager).map (·.pos)) := by
+  rw [iterDescendants_eq_lazy, iter_lazy_eq_filter i root h]
+  congr 2
+  exact List.filter_congr (fun r _ => keep_empty_eq_eager r)
+
+/-- test on a literal: `<x a="1"><y b="2"/>t</x>` with only `y`'s attributes built -/
+example :
+    let t : XTree := .elem "x" [] [("a", "1")] none [.elem "y" [] [("b", "2")] none [] (some "t")] none
+    let i : Input := { cfg := { lxml := false, namespaces := [], fragment := none }, isTree := true,
+                       prolog := [], top := some t, epilog := [], path := [] }
+    ((build i).toOption.bind fun r => iterLazy ⟨[], [5]⟩ r) = some [1, 2, 5, 7, 8] ∧
+    ((build i).toOption.bind fun r => iterDescendants r) = some [1, 2, 5, 8] := by decide
+
+/-! ## `get_node_tree` applied to a node tree -/
+
+/-- IDEMPOTENCE.  `get_node_tree(node)` on any node of a built tree (default `fragment`) returns that
+very node and leaves the tree as it is. -/
+theorem get_node_tree_idempotent (tree : PNode) (sel : Nat) (n : PNode) (h : nodeAt tree sel = some n) :
+    reget none tree sel = .ok ⟨tree, sel⟩ :=
+  reget_none tree sel n h
+
+mutual
+theorem buildOne_fragment (c : Cfg) (f : Option Bool) : ∀ (t : XTree) (p : Nat),
+    buildOne { c with fragment := f } p t = buildOne c p t
+  | .elem name nsmap attrib text kids tail, p => by
+    simp only [buildOne, Cfg.nsmapOf]
+    rw [buildKids_fragment c f kids]
+  | .comment s tl, p => rfl
+  | .pi t s tl, p => rfl
+theorem buildKids_fragment (c : Cfg) (f : Option Bool) : ∀ (ts : List XTree) (p : Nat),
+    buildKids { c with fragment := f } p ts = buildKids c p ts
+  | [], p => rfl
+  | t :: ts, p => by
+    simp only [buildKids]
+    rw [buildOne_fragment c f t, buildKids_fragment c f ts]
+end
+
+/-- asking for a document afterwards (`get_node_tree(root_node, fragment=False)`) gives the same tree as
+asking for it at once (`get_node_tree(elem, fragment=False)`) — xml.etree Element roots: the dummy
+document sits one position before the root and the positions stay strictly increasing. -/
+theorem reget_false_eq_build_false (ns : NsMap) (f : Option Bool) (hf : f ≠ some false) (e : XTree)
+    (root : PNode)
+    (h : build { cfg := ⟨false, ns, f⟩, isTree := false, prolog := [], top := some e, epilog := [], path := [] } = .ok root) :
+    ∃ root', build { cfg := ⟨false, ns, some false⟩, isTree := false, prolog := [], top := some e,
+                     epilog := [], path := [] } = .ok root' ∧
+      reget (some false) root root.pos = .ok ⟨root', root'.pos⟩ := by
+  have hf' : (f == some false) = false := by simpa using hf
+  simp only [build, Bool.false_eq_true, if_false, buildET] at h ⊢
+  cases he : e.isElem with
+  | false => simp [he] at h
+  | true =>
+    simp only [he, Bool.not_true, Bool.false_eq_true, if_false, hf', Except.ok.injEq] at h
+    subst h
+    have hb := buildOne_fragment ⟨false, ns, f⟩ (some false) e 1
+    simp only at hb
+    refine ⟨.doc ((buildOne ⟨false, ns, some false⟩ 1 e).1.pos - 1) [(buildOne ⟨false, ns, some false⟩ 1 e).1],
+      by simp only [Bool.not_true, Bool.false_eq_true, if_false, beq_self_eq_true, if_true], ?_⟩
+    rw [hb]
+    cases e with
+    | comment s tl => simp [XTree.isElem] at he
+    | pi t s tl => simp [XTree.isElem] at he
+    | elem name nsmap attrib text kids tail =>
+      simp only [buildOne, PNode.pos]
+      exact reget_false_elem_root _ _ _ _ _ _
+
+/-- idempotence of the explicit forms: a second `fragment=False` returns the document again; a second
+`fragment=True` the element again. -/
+theorem reget_false_twice (d : Nat) (kids : List PNode) :
+    reget (some false) (.doc d kids) d = .ok ⟨.doc d kids, d⟩ := reget_false_idem d kids
+
+theorem reget_true_twice (tree : PNode) (sel : Nat) (n : PNode) (h : nodeAt tree sel = some n)
+    (hd : n.isDoc = false) : reget (some true) tree sel = .ok ⟨tree, sel⟩ :=
+  reget_true_nondoc tree sel n h hd
+
+/-! ## the `namespaces` argument -/
+
+mutual
+theorem buildOne_lxml_namespaces (n0 ns : NsMap) (fr : Option Bool) : ∀ (t : XTree) (p : Nat),
+    buildOne ⟨true, ns, fr⟩ p t = buildOne ⟨true, n0, fr⟩ p t
+  | .elem name nsmap attrib text kids tail, p => by
+    simp only [buildOne, Cfg.nsmapOf, if_true]
+    rw [buildKids_lxml_namespaces n0 ns fr kids]
+  | .comment s tl, p => rfl
+  | .pi t s tl, p => rfl
+theorem buildKids_lxml_namespaces (n0 ns : NsMap) (fr : Option Bool) : ∀ (ts : List XTree) (p : Nat),
+    buildKids ⟨true, ns, fr⟩ p ts = buildKids ⟨true, n0, fr⟩ p ts
+  | [], p => rfl
+  | t :: ts, p => by
+    simp only [buildKids]
+    rw [buildOne_lxml_namespaces n0 ns fr t, buildKids_lxml_namespaces n0 ns fr ts]
+end
+
+/-- for lxml trees the `namespaces` argument is irrelevant (the in-scope maps come from the elements):
+whatever is passed — prefixes that shadow, miss or contradict the document's declarations — the same
+tree with the same positions is built. -/
+theorem lxml_ignores_namespaces (i : Input) (hl : i.cfg.lxml = true) (ns : NsMap) :
+    build { i with cfg := { i.cfg with namespaces := ns } } = build i := by
+  obtain ⟨⟨lx, n0, fr⟩, isTree, pro, top, epi, path⟩ := i
+  simp only at hl; subst hl
+  have h1 := fun t p => buildOne_lxml_namespaces n0 ns fr t p
+  simp only [build, if_true, buildLxml, buildLxmlDoc, h1]
+
+/-! ## `fn:root` and `<<` relative to the context root -/
+
+/-- `XPathContext.get_root(node)` with the built tree's root as context root: every node of the tree
+that exists (eager node, or lazy node whose owner has built it) is found by `iter_lazy` — so
+`fn:root($n)` is the tree root, which is the spec's answer. -/
+theorem get_root_built_node (i : Input) (root : PNode) (_h : build i = .ok root) (L : LazyState)
+    (r : Rec) (hr : r ∈ iter root) (hk : keep L r = true) :
+    ctxGetRoot root (some root.pos) L r.pos = some root.pos := by
+  rw [ctxGetRoot_root]
+  have : (((iter root).filter (keep L)).map (·.pos)).contains r.pos = true := by
+    rw [List.contains_iff_mem]
+    exact List.mem_map_of_mem (List.mem_filter.2 ⟨hr, hk⟩)
+  rw [if_pos this]
+
+/-- KNOWN FINDING F02e (witness 1): a context without root (`XPathContext(item=node)`) makes
+`get_root` — hence `fn:root()` — return nothing for every node, whereas F&O 14.9 wants the root of the
+node's tree. -/
+theorem get_root_fails_item_only (tree : PNode) (L : LazyState) (node : Nat) :
+    ctxGetRoot tree none L node = none := rfl
+
+/-- KNOWN FINDING F02e (witness 2): context root = the inner element `y` (position 4) of
+`<x><y/></x>`; for the outer element (position 2), which `..` reaches, `get_root` returns nothing. -/
+theorem get_root_fails_rooted_subtree :
+    let t : XTree := .elem "x" [] [] none [.elem "y" [] [] none [] none] none
+    let i : Input := { cfg := { lxml := false, namespaces := [], fragment := none }, isTree := true,
+                       prolog := [], top := some t, epilog := [], path := [] }
+    ((build i).toOption.map fun r => (ctxGetRoot r (some 4) ⟨[], []⟩ 4, ctxGetRoot r (some 4) ⟨[], []⟩ 2))
+      = some (some 4, none) := by decide
+
+/-- `$a << $b` by walking `context.root.iter_document()` with the tree root as context root, nodes
+identified by position: for two different nodes of the tree it is `position(a) < position(b)`. -/
+theorem ctx_precedes_root (i : Input) (root : PNode) (h : build i = .ok root) (a b : Nat) (hab : a ≠ b)
+    (ha : a ∈ (iter root).map (·.pos)) (hb : b ∈ (iter root).map (·.pos)) :
+    ctxPrecedes root (some root.pos) false a b = some (decide (a < b)) ∧
+    ctxPrecedes root (some root.pos) true a b = some (decide (b < a)) := by
+  have hs := build_positions_strict i root h
+  have hw := walkPos_strict a b hab (iter root) hs ha hb
+  have hne : (a == b) = false := by simpa using hab
+  have : iterNode none root = iter root := rfl
+  unfold ctxPrecedes
+  simp only [hne, Bool.false_eq_true, if_false, Option.toList_some, List.cons_append, walkRoots, nodeAt_root,
+    Option.bind_some, this, hw]
+  constructor
+  · simp
+  · by_cases hlt : a < b <;> simp [hlt] <;> omega
 
 end EPV.C02
